@@ -20,6 +20,9 @@ CHECKS = {
  'C07': dict(tech='Verus contracts (definition matrices; X_ed(self,p) == X_ion(p)*self; in-place == returning) on the extracted translation/scaling/shear builders, mul_point/mul_direction, From<Transform> of Mat2/3/4 in both layouts + z3 lemma for product associativity, glued by theorem functions',
              text='Deductive proof: translation_2d/3d, scaling_2d/3d, shearing_x/y constructors equal their definition matrices, each *_ed builder equals pre-multiplication by the constructor and each in-place form equals the returning form (Mat2/3/4, both layouts); mul_point/mul_direction use w=1/w=0; theorem functions prove the point/direction action, a 3-step chain applied in call order for every start matrix, Transform::default = identity map and the Transform -> matrix map p -> position + orientation*(scale.p).',
              note=TB + 'Mat4::from(Transform) was T*S*R (genuine defect, repaired by a fix: commit in /repo, see known_findings.json).', ref='5 C07'),
+ 'C08': dict(tech='Verus contracts (spec matrices derived from the clip-volume requirement, per handedness and depth convention) on the 21 extracted projection constructors x 2 layouts + z3 (QF_NRA) lemmas: 8 view-volume corners -> clip-volume corners; theorem functions for perspective == frustum(symmetric planes), perspective_fov == perspective(w/h), lh == rh * z-mirror, infinite perspective',
+             text='Deductive proof: every orthographic/frustum/perspective/perspective_fov/(tweaked_)infinite_perspective constructor (lh/rh, zo/no; row- and column-major) equals the matrix that the clip-volume requirement determines; the eight corners of the (off-centre) view volume reach x,y = -1/+1 and depth 0|-1 / 1 after the homogeneous divide (stated division-free as x'' = +-w'' ...), w'' = +-z is positive in front, for all planes with left!=right, bottom!=top, near!=far.',
+             note=TB + 'Genuine defect found and repaired (fix: commit): left-handed off-centre frusta. tan_r*cos_r == sin_r axiom. IndexMut assumed (Kani, C18).', ref='5 C08'),
  'C06': dict(tech='Verus contracts (cofactor/Leibniz determinant, adjugate/determinant inverse) on the extracted determinant/inverted/Mul functions + z3 (QF_NRA) lemmas for det multiplicativity, transpose invariance and M*adj/det = I, glued by Verus-checked theorem functions over the real API',
              text='Deductive proof: determinant (2,3,4; both layouts) equals the cofactor expansion; Mat4::inverted (2x2-block algorithm through the real shuffle/mat2 helper code incl. the bit-packed ShuffleMask4) returns adj(M)/det(M) whenever det != 0; theorem functions calling the real API prove det(M^T)=det(M), layout invariance, det(AB)=det(A)det(B) and M*M^-1 = M^-1*M = I for every real matrix with non-zero determinant, with the polynomial/rational identities discharged by z3 (nlsat / solve-eqs+smt portfolio).',
              note=TB + 'The rigid and affine fast inverses are not yet under contract (listed under not_decided).', ref='5 C06'),
